@@ -47,11 +47,13 @@ class Interner(object):
 
     def __init__(self):
         self.d = {}
+        self.values = {}
 
     def tok(self, value):
         k = json.dumps(cpy.fp(value), sort_keys=True)
         if k not in self.d:
             self.d[k] = len(self.d)
+            self.values[self.d[k]] = value
         return self.d[k]
 
     def key(self, value):
@@ -155,8 +157,9 @@ def _ovr(x):
     return -1 if x is None else x
 
 
-def lib_projection(code, it, cd=None):
-    """CodeData.from_code(code) projected onto tokens"""
+def lib_projection(code, it, cd=None, nested_tok=None):
+    """CodeData.from_code(code) projected onto tokens (or a given CodeData `cd`; then `nested_tok`
+    says how a nested CodeData constant is tokenised)"""
     from code_data import (Cellvar, CodeData, Constant, Freevar, Function, Jump, Name, NoArg, Varname)
 
     r = {"exc": "", "exc_type": ""}
@@ -171,6 +174,8 @@ def lib_projection(code, it, cd=None):
 
     def const_tok(v):
         nonlocal nested_expected
+        if isinstance(v, CodeData) and nested_tok is not None:
+            return nested_tok(v)
         if isinstance(v, CodeData):
             if nested_expected is None:
                 nested_expected = []
